@@ -55,6 +55,40 @@ MUTATIONS = {
         old="        elif isinstance(screen_canv, UrwidImageCanvas):\n",
         new="        elif False:\n",
     ),
+    # ---- regressions that need a widget SUBCLASS / a direct clear_images(now=True) call ------------
+    "c18-allocator-per-class-counter": dict(
+        file=FILE, props=["C18"], expect="UrwidImage:z-index-allocator:z-not-distinct",
+        old="""    @staticmethod
+    def _ti_get_z_index() -> int:
+        if __class__._ti_free_z_indexes:
+            return __class__._ti_free_z_indexes.pop()
+
+        z_index = __class__._ti_next_z_index
+        if z_index == 2**31:
+            raise UrwidImageError("Too many image widgets with the kitty render style")
+        __class__._ti_next_z_index = -z_index if z_index > 0 else -z_index + 1
+""",
+        new="""    @classmethod
+    def _ti_get_z_index(cls) -> int:
+        if cls._ti_free_z_indexes:
+            return cls._ti_free_z_indexes.pop()
+
+        z_index = cls._ti_next_z_index
+        if z_index == 2**31:
+            raise UrwidImageError("Too many image widgets with the kitty render style")
+        cls._ti_next_z_index = -z_index if z_index > 0 else -z_index + 1
+""",
+    ),
+    "c18-clear-now-keeps-disguise": dict(
+        file=FILE, props=["C18"], expect="draw_screen:composite:missing",
+        old="                self.write(ctlseqs.KITTY_DELETE_ALL)\n            UrwidImageCanvas._ti_change_disguise()",
+        new="                self.write(ctlseqs.KITTY_DELETE_ALL)\n                UrwidImageCanvas._ti_change_disguise()",
+    ),
+    "c18-clear-widget-now-keeps-disguise": dict(
+        file=FILE, props=["C18"], expect="draw_screen:composite:missing",
+        old="                    kitty_widgets.append(widget)\n                    widget._ti_change_disguise()",
+        new="                    kitty_widgets.append(widget)\n                    now or widget._ti_change_disguise()",
+    ),
     # DESIGN.md must-catch
     'c18-cviews-without-row-col': dict(
         file=FILE, props=["C18"],
